@@ -658,7 +658,13 @@ func (p *flowProto) cache(st *state) interface{} {
 func (p *flowProto) decodeReal(st *state, addr, dg []byte, withJSON bool) decoded {
 	var out decoded
 	if p.isIPFIX {
+		if measureAlloc {
+			runtime.ReadMemStats(&lastMS0)
+		}
 		m, err := ipfix.NewDecoder(net.IP(addr), dg).Decode(p.cache(st).(ipfix.MemCache))
+		if measureAlloc {
+			runtime.ReadMemStats(&lastMS1)
+		}
 		out.errs = errClasses(p, err)
 		if m == nil {
 			out.nilMsg = true
@@ -684,7 +690,13 @@ func (p *flowProto) decodeReal(st *state, addr, dg []byte, withJSON bool) decode
 		}
 		return out
 	}
+	if measureAlloc {
+		runtime.ReadMemStats(&lastMS0)
+	}
 	m, err := netflow9.NewDecoder(net.IP(addr), dg).Decode(p.cache(st).(netflow9.MemCache))
+	if measureAlloc {
+		runtime.ReadMemStats(&lastMS1)
+	}
 	out.errs = errClasses(p, err)
 	if m == nil {
 		out.nilMsg = true
@@ -711,11 +723,11 @@ func (p *flowProto) decodeReal(st *state, addr, dg []byte, withJSON bool) decode
 	return out
 }
 
-// marshalOnly decodes once more against a throw-away copy of nothing — the cache is already updated, templates
-// re-announce identically — and runs JSONMarshal on the result, discarding the output
-func (p *flowProto) marshalOnly(st *state, addr, dg []byte) {
-	p.decodeReal(st, addr, dg, true)
-}
+// allocation measurement around the Decode call inside decodeReal
+var (
+	measureAlloc     bool
+	lastMS0, lastMS1 runtime.MemStats
+)
 
 // allocation bound of C02: linear in the datagram, times the largest template the cache can hold
 // (a field specifier needs 4 octets, so maxFields <= largest datagram seen in the session / 4)
@@ -733,12 +745,12 @@ func (p *flowProto) runDecode(st *state, line, expect string) (string, string) {
 		maxPrev = len(dg)
 	}
 	st.v["maxlen"] = maxPrev
-	var ms0, ms1 runtime.MemStats
-	runtime.ReadMemStats(&ms0)
-	out := p.decodeReal(st, addr, dg, false)
-	runtime.ReadMemStats(&ms1)
-	// C01: the worker also encodes every decoded message; a panic there is caught by the run loop
-	p.marshalOnly(st, addr, dg)
+	// one decode (allocation measured around Decode alone), then — as the worker does — JSONMarshal of the
+	// decoded message; a panic in either is caught by the run loop (C01)
+	measureAlloc = true
+	out := p.decodeReal(st, addr, dg, true)
+	measureAlloc = false
+	ms0, ms1 := lastMS0, lastMS1
 	ln := out.line()
 	verdict := "ok"
 	switch {
